@@ -45,9 +45,21 @@ def check(res):
     gen = build_gen_driver()
     p = run([exe], timeout=600)
     if p.returncode != 0:
-        res.violation("crash", "c06 driver failed", {"stderr": p.stderr[-3000:]})
+        last = [l for l in p.stdout.splitlines() if " category=" in l][-1:]
+        res.violation("crash", "c06 driver failed%s" % (" while inspecting the constant %s" % last[0] if last else ""),
+                      {"stderr": p.stderr[-3000:], "last_constant_inspected": last, "rerun": "build/<hash>/plain/c06_driver"})
         return
-    impl = [parse(l) for l in p.stdout.splitlines()]
+    impl = [parse(l) for l in p.stdout.splitlines() if " category=" not in l]
+    # the shared constants seen before main() (by an initializer of a translation unit linked before the library) and from main()
+    early = {d["label"][8:]: d for d in impl if d["label"].startswith("premain:")}
+    late = {d["label"][7:]: d for d in impl if d["label"].startswith("inmain:")}
+    for k in late:
+        a, b = early.get(k), late[k]
+        if a is None or any(a[x] != b[x] for x in ("cat", "full", "sinks", "views")):
+            res.violation("oracle:before-main:" + k, "the constant %s seen by the initializer of a namespace-scope object (before main) is %s; from main() it is %s" %
+                          (k, {x: a[x] for x in ("cat", "full", "views")} if a else "missing", {x: b[x] for x in ("cat", "full", "views")}),
+                          {"constant": k, "before_main": a, "in_main": b, "rerun": "build/<hash>/plain/c06_driver | grep ':%s '" % k})
+            break
     model = {}
     for l in run([gen, "c06"], timeout=600, check=True).stdout.splitlines():
         d = parse(l)
@@ -101,7 +113,8 @@ def check(res):
         "evaluations": len(impl) * 3 + nviews,
         "distinct_nontrivial": len(seen),
         "rule": "every node of the zoo (one or more per implementation class: factories, documented members, constants, impl::Comment/Annotation): "
-                "category, accept with all hooks overridden, accept with only the sinks overridden, view<K> for every leaf K; "
+                "category, accept with all hooks overridden, accept with only the sinks overridden, view<K> for every leaf K; the 34 constants shared by "
+                "all Lexicons are inspected the same way from the initializer of a namespace-scope object linked before the library (before main) and from main(); "
                 "distinct non-trivial = distinct categories exercised",
         "exhaustive": not missing,
         "samples": [impl[i] for i in (0, len(impl) // 2, len(impl) - 1)],
